@@ -31,22 +31,35 @@ type verifBits struct {
 	sym   bool
 	pbits uint // the first pbits bits come from pval (sharding of the symbolic space)
 	pval  int
+	// maxEdges > 0 bounds the number of relation bits that may be set (systematic sparse family)
+	maxEdges int
+	edges    int
 }
 
 func newVerifBits() *verifBits {
 	c := vParam("schema", -1)
-	return &verifBits{code: c, sym: c < 0, pbits: uint(vParam("pbits", 0)), pval: vParam("pval", 0)}
+	return &verifBits{code: c, sym: c < 0, pbits: uint(vParam("pbits", 0)), pval: vParam("pval", 0), maxEdges: vParam("maxedges", 0)}
 }
 
 func (b *verifBits) next() bool {
 	if b.sym {
-		if b.pos < b.pbits {
-			r := b.pval&(1<<b.pos) != 0
-			b.pos++
-			return r
+		var r bool
+		switch {
+		case b.maxEdges > 0 && b.edges >= b.maxEdges:
+			r = false
+			if b.pos < b.pbits && b.pval&(1<<b.pos) != 0 {
+				vAssume(false) // shard prefix exceeds the edge budget: empty shard
+			}
+		case b.pos < b.pbits:
+			r = b.pval&(1<<b.pos) != 0
+		default:
+			r = vBool()
 		}
 		b.pos++
-		return vBool()
+		if r {
+			b.edges++
+		}
+		return r
 	}
 	r := b.code&(1<<b.pos) != 0
 	b.pos++
@@ -73,9 +86,17 @@ func verifSchemaBits(b *verifBits, n int, withAuto, withMulti, withAfter bool) S
 	schema := Schema{}
 	for _, s := range names {
 		st := State{}
-		st.Require = b.sublist(names, s)
-		st.Add = b.sublist(names, s)
-		st.Remove = b.sublist(names, s)
+		// case parameter "only": 1 = only Add relations, 2 = only Require+After (ordering), 0 = all
+		only := vParam("only", 0)
+		if only != 1 {
+			st.Require = b.sublist(names, s)
+		}
+		if only != 2 {
+			st.Add = b.sublist(names, s)
+		}
+		if only == 0 {
+			st.Remove = b.sublist(names, s)
+		}
 		if withMulti {
 			st.Multi = b.next()
 		}
